@@ -34,6 +34,7 @@ struct Node {
     child: Option<Child>,
     stopped: bool, // SIGSTOPped
     restarts: u64,
+    started_at: u64,
 }
 
 struct Cluster {
@@ -46,6 +47,7 @@ struct Cluster {
     delay_ms: u64,
     confirm_delay_ms: u64,
     port_lock: PathBuf,
+    start_counter: u64,
 }
 
 /// Ports for one cluster: a block of 12 between vp-resp's range and the kernel's ephemeral range, reserved across
@@ -80,8 +82,8 @@ impl Cluster {
     fn new(server: &str, root: &Path, n: usize, rf: u8, partitions: u16, delay_ms: u64) -> Cluster {
         let (base, port_lock) = reserve_ports(root.to_string_lossy().bytes().fold(7u64, |a, b| a.wrapping_mul(131) ^ b as u64));
         let ports: Vec<u16> = (0..2 * n as u16).map(|k| base + k).collect();
-        let nodes = (0..n).map(|i| Node { idx: i, dir: root.join(format!("node{i}")), client_port: ports[2 * i], cluster_port: ports[2 * i + 1], child: None, stopped: false, restarts: 0 }).collect();
-        Cluster { server: server.to_string(), root: root.to_path_buf(), n, rf, partitions, nodes, delay_ms, confirm_delay_ms: 0, port_lock }
+        let nodes = (0..n).map(|i| Node { idx: i, dir: root.join(format!("node{i}")), client_port: ports[2 * i], cluster_port: ports[2 * i + 1], child: None, stopped: false, restarts: 0, started_at: 0 }).collect();
+        Cluster { server: server.to_string(), root: root.to_path_buf(), n, rf, partitions, nodes, delay_ms, confirm_delay_ms: 0, port_lock, start_counter: 0 }
     }
     fn config_path(&self, i: usize) -> PathBuf { self.root.join(format!("node{i}.toml")) }
     fn write_config(&self, i: usize) {
@@ -108,6 +110,8 @@ impl Cluster {
         if self.confirm_delay_ms > 0 { delays.push(format!("coord.before_confirm={}", self.confirm_delay_ms)); }
         if !delays.is_empty() { cmd.env("SIERRA_VERIF_DELAYS", delays.join(",")); }
         let child = cmd.spawn().map_err(|e| format!("spawn server: {e}"))?;
+        self.start_counter += 1;
+        self.nodes[i].started_at = self.start_counter;
         self.nodes[i].child = Some(child);
         self.nodes[i].stopped = false;
         Ok(())
@@ -197,14 +201,15 @@ fn read_events(dir: &Path) -> Vec<(String, Vec<u64>)> {
     }).collect()
 }
 
-fn run_once(args: &Args, rep: &mut Report, run_seed: u64, server: &str) {
+fn run_once(args: &Args, rep: &mut Report, run_seed: u64, server: &str, first_run: bool) {
     let mut rng = Rng::new(run_seed);
     let thorough = args.tier.is_thorough();
-    // 3 nodes / rf 3 mostly; 1 run in 4 (thorough 1 in 3) has 5 nodes, and half of those replicate to all 5 (quorum 3)
+    // 3 nodes / rf 3 mostly; 1 run in 3 has 5 nodes and replicates to all 5 (quorum 3)
     // (rf 3 on 5 nodes is not used: with rf < nodes the server's bucket placement disagrees with the topology's routing
     // - the open C13 finding - and most writes fail for that reason alone)
     let forced_n = args.opts.get("nodes").and_then(|x| x.parse::<usize>().ok());
-    let n = forced_n.unwrap_or(if rng.chance(1, if thorough { 3 } else { 4 }) { 5 } else { 3 });
+    // (the first run of every third shard is a 5-node cluster, so that every check run has some)
+    let n = forced_n.unwrap_or(if (first_run && args.shard % 3 == 0) || rng.chance(1, 3) { 5 } else { 3 });
     let rf = if n == 5 { 5u8 } else { 3u8 };
     let quorum = rf / 2 + 1;
     let partitions = 16u16;
@@ -331,7 +336,7 @@ fn run_once(args: &Args, rep: &mut Report, run_seed: u64, server: &str) {
     while t_run.elapsed() < Duration::from_millis(run_ms) {
         std::thread::sleep(Duration::from_millis(400 + rng.below(1200)));
         let victim = rng.usize_below(n);
-        if n == 5 && rng.chance(1, 2) {
+        if n == 5 && rng.chance(2, 3) {
             // two replicas down at once for longer than the heartbeat time-out: with rf 5 exactly a quorum is left
             let mut second = rng.usize_below(n);
             while second == victim { second = rng.usize_below(n); }
@@ -339,15 +344,20 @@ fn run_once(args: &Args, rep: &mut Report, run_seed: u64, server: &str) {
             for v in [victim, second] {
                 if rng.chance(1, 2) { cl.kill9(v); how.push((v, true)); schedule.push(format!("kill9 {v}")); } else { cl.signal(v, libc::SIGSTOP); how.push((v, false)); schedule.push(format!("stop {v}")); }
             }
-            std::thread::sleep(Duration::from_millis(2500 + rng.below(1500)));
+            std::thread::sleep(Duration::from_millis(3500 + rng.below(1500)));
             for (v, killed) in how {
                 if killed { if cl.start(v).is_ok() { cl.nodes[v].restarts += 1; schedule.push(format!("restart {v}")); } } else { cl.signal(v, libc::SIGCONT); schedule.push(format!("cont {v}")); }
             }
             rep.count("nemesis.two_nodes_down", 1);
             continue;
         }
-        match rng.below(4) {
-            0 | 1 => {
+        // the node that has been up longest leads every partition (replicas are ordered by alive_since): pausing it is
+        // what produces two coordinators, so half of the pauses aim at it
+        let leader = (0..n).filter(|i| cl.nodes[*i].child.is_some() && !cl.nodes[*i].stopped).min_by_key(|i| cl.nodes[*i].started_at).unwrap_or(victim);
+        let action = rng.below(10);
+        let victim = if (4..8).contains(&action) && rng.chance(1, 2) { leader } else { victim };
+        match action {
+            0..=3 => {
                 // crash: memory lost, disk kept; restart after a while (new alive_since => coordinators change)
                 cl.kill9(victim);
                 schedule.push(format!("kill9 {victim}"));
@@ -355,7 +365,7 @@ fn run_once(args: &Args, rep: &mut Report, run_seed: u64, server: &str) {
                 if cl.start(victim).is_ok() { cl.nodes[victim].restarts += 1; schedule.push(format!("restart {victim}")); }
                 rep.count("nemesis.kill9_restart", 1);
             }
-            2 => {
+            4..=7 => {
                 // pause: the node misses heartbeats, is timed out by the others, and on SIGCONT still believes the old membership
                 cl.signal(victim, libc::SIGSTOP);
                 schedule.push(format!("stop {victim}"));
@@ -539,12 +549,12 @@ fn main() {
         return;
     }
     if let Some(w) = args.load_replay() {
-        run_once(&args, &mut rep, w["witness"]["run"]["run_seed"].as_u64().unwrap(), &server);
+        run_once(&args, &mut rep, w["witness"]["run"]["run_seed"].as_u64().unwrap(), &server, false);
     } else {
         let mut k = 0;
         loop {
             k += 1;
-            run_once(&args, &mut rep, args.case_seed(k), &server);
+            run_once(&args, &mut rep, args.case_seed(k), &server, k == 1);
             if !args.time_left() || rep.violations.len() > 6 { break; }
         }
         rep.count("runs", k);
